@@ -65,6 +65,10 @@ def cases(tier: str, seed: int) -> List[Dict[str, Any]]:
     for E, M in ((4, 3), (5, 2), (2, 1), (5, 10)):
         for sr in (0, 3):
             out.append({"E": E, "M": M, "srbits": sr, "kind": "alias", "seed": seed})
+    # a format OBJECT that was used with other fields before (FPFormat is a mutable dataclass)
+    for (E0, M0), (E, M) in (((4, 3), (3, 3)), ((3, 3), (3, 2)), ((5, 2), (4, 3)), ((2, 1), (5, 2)), ((5, 10), (4, 3))):
+        for sr in (1, 3):
+            out.append({"E": E, "M": M, "srbits": sr, "kind": "saturate", "default_dtype": None, "mutated_from": [E0, M0], "seed": seed})
     # ambient autograd mode (quantisation inside autograd.Function bodies and evaluation loops runs with grad
     # mode off) and an input that requires grad: the distribution is the same
     for E, M in ((4, 3), (5, 2), (2, 1), (3, 4), (5, 10), (7, 0)):
@@ -147,8 +151,15 @@ def run_case(case: Dict[str, Any]) -> Dict[str, Any]:
     real_randint = torch.randint
 
     if case.get("kind") == "saturate":
+        if case.get("mutated_from"):
+            e0, m0 = case["mutated_from"]
+            fmt = FPFormat(e0, m0, rounding="stochastic", srbits=sr)
+            fmt.quantise(torch.linspace(-300.0, 300.0, 41))
+            _ = (fmt.max_absolute_value, fmt.min_absolute_normal, fmt.min_absolute_subnormal)
+            fmt.exponent_bits, fmt.mantissa_bits = E, M
+            tag += f"|object_used_before_as_E{e0}M{m0}"
         mx = fp.max_value(E, M)
-        vals = [mx * (1 + 2.0 ** -(M + 1)), mx * (1 + 2.0 ** -(M + 2)), mx * 1.5, mx * 2, mx * 2.0 ** 20, 3e38, float("inf")]
+        vals = [mx * (1 + 2.0 ** -(M + 1)), mx * (1 + 2.0 ** -(M + 2)), mx * 1.5, mx * 2, mx * 6.5, mx * 2.0 ** 20, 3e38, float("inf")]
         xs = torch.tensor([v for v in vals if v == float("inf") or v < 3.4e38], dtype=torch.float32)
         xs = torch.cat([xs, -xs])
         D = 2**nbits
